@@ -4,7 +4,7 @@ wt=/tmp/seedmatrix; out=/tmp/seedmatrix_out; rm -rf $out; mkdir -p $out
 git -C /repo worktree remove --force $wt 2>/dev/null; git -C /repo worktree prune
 git -C /repo worktree add --detach $wt HEAD >/dev/null 2>&1 || exit 2
 for d in /verif/seeded/*/; do
-  id=$(basename $d); case $id in *_superseded) continue;; esac
+  id=$(basename $d); case $id in *_superseded*) continue;; esac
   if [ -n "${2:-}" ] && ! echo " $2 " | grep -q " $id "; then continue; fi
   prop=$(python3 -c "import json;print(json.load(open('$d/meta.json'))['property'])")
   git -C $wt checkout -q -- . ; git -C $wt clean -fdq
